@@ -85,6 +85,35 @@ def _c06_case(seed):
     return []
 
 
+def _c06_same_path(seed):
+    """One .puml path rewritten in place with different diagrams (some of identical byte length) and parsed again in the same process."""
+    from pytestarch.diagram_extension.diagram_parser import PumlParser
+    from pathlib import Path
+    texts = ["@startuml\n[aa] --> [bb]\n[cc]\n@enduml\n", "@startuml\n[aa] <-- [bb]\n[cc]\n@enduml\n", "@startuml\n[bb] --> [aa]\n[dd]\n@enduml\n",
+             "@startuml\n[aa] --> [bb]\n[aa] --> [cc]\n@enduml\n", "@startuml\n[aa] --> [bb]\n[cc]\n@enduml\n"]
+    want = [({"aa", "bb", "cc"}, {"aa": {"bb"}}), ({"aa", "bb", "cc"}, {"bb": {"aa"}}), ({"aa", "bb", "dd"}, {"bb": {"aa"}}),
+            ({"aa", "bb", "cc"}, {"aa": {"bb", "cc"}}), ({"aa", "bb", "cc"}, {"aa": {"bb"}})]
+    out = []
+    fd, path = tempfile.mkstemp(suffix=".puml", dir=os.environ.get("PYVC_TMP"))
+    os.close(fd)
+    try:
+        parser = PumlParser()
+        for i, (t, w) in enumerate(zip(texts, want)):
+            with open(path, "w") as f:
+                f.write(t)
+            st = os.stat(path)
+            os.utime(path, (st.st_atime, st.st_mtime))
+            for prs in (parser, PumlParser()):
+                pd = prs.parse(Path(path))
+                got = (set(pd.all_modules), {k: set(v) for k, v in pd.dependencies.items() if v})
+                if got != w:
+                    out.append(dict(case="same-path", detail=f"diagram #{i} written to the same path: parsed {got}, file says {w}", input=dict(kind="c06-path", seed=seed)))
+                    return out
+    finally:
+        os.unlink(path)
+    return out
+
+
 def bounded_puml(tier, seed):
     from pytestarch.diagram_extension.exceptions import PumlParsingError
     b = Bounded("C06.puml-parse-vs-generated-relation", "random component relations over 2-6 components (30% with dotted fully qualified names), per component one of 6 declaration forms or undeclared, "
@@ -94,6 +123,9 @@ def bounded_puml(tier, seed):
         b.case()
         for v in res:
             b.violation(v["case"], v["detail"], v["input"])
+    for v in _c06_same_path(seed):
+        b.violation(v["case"], v["detail"], v["input"])
+    b.case()
     for text in ("[a] --> [b]\n", "@startuml\n[a] --> [b]\n", "[a] --> [b]\n@enduml\n", ""):
         b.case()
         try:
@@ -108,6 +140,9 @@ def bounded_puml(tier, seed):
 
 
 def rerun_c06(inp):
+    if inp["kind"] == "c06-path":
+        res = _c06_same_path(inp["seed"])
+        return (not res), ("; ".join(v["detail"] for v in res) or "each parse reflects the file's current content")
     if inp["kind"] == "c06-tags":
         from pytestarch.diagram_extension.exceptions import PumlParsingError
         try:
@@ -182,6 +217,12 @@ def _c07_case(seed):
         try:
             for should_only in (True, False):
                 rule = DiagramRule(should_only_rule=should_only).from_file(Path(path)).with_base_module(base)
+                if rng.random() < 0.5:
+                    # the same rule object was applied before: to a violating and to a conforming architecture
+                    bad_arch = build_arch(mods, sorted(imports) + [(f"{base}.{comps[-1]}", f"{base}.{comps[0]}"), (f"{base}.{comps[0]}", f"{base}.{comps[-1]}")])
+                    outcome(rule, bad_arch)
+                    outcome(rule, arch)
+                    outcome(rule, bad_arch)
                 kind, msg = outcome(rule, arch)
                 full = [f"{base}.{c}" for c in comps]
                 want = conforms(mods, imports, full, {(f"{base}.{a}", f"{base}.{b}") for a, b in relation}, should_only)
